@@ -287,10 +287,22 @@ func execC15(sc c15Scenario) *vstat.Outcome {
 	}
 	addr := listenAddr(c15Addr)
 	full := genBytes(700, "text", uint32(n))
+	// an upstream that honours the Accept-Encoding pike is configured to send: its answers come
+	// gzip-encoded (only in scenarios without Range requests -- a range of an encoded body is
+	// another resource); the client still receives the upstream's response, decoded or not as it asked
+	upEnc := ""
+	if sc.UpAE != "" {
+		upEnc = "gzip"
+		for _, r := range sc.Reqs {
+			if strings.HasPrefix(r.Cond, "range") {
+				upEnc = ""
+			}
+		}
+	}
 	specs := [3]string{fmt.Sprintf("c15-%d-c", n), fmt.Sprintf("c15-%d-u", n), fmt.Sprintf("c15-%d-l", n)}
-	c15Up.setSpec(specs[0], &respSpec{Status: 200, Headers: [][2]string{{"Cache-Control", "max-age=300"}, {"Content-Type", "text/plain"}, {"X-Up-Header", "u1"}, {"X-Resp-Added", "from-upstream"}}, Body: full, ETag: `"v1"`, ModTime: c15ModTime})
-	c15Up.setSpec(specs[1], &respSpec{Status: 200, Headers: [][2]string{{"Content-Type", "text/plain"}, {"X-Up-Header", "u2"}}, Body: full, ETag: `"v1"`, ModTime: c15ModTime})
-	c15Up.setSpec(specs[2], &respSpec{Status: 200, Headers: [][2]string{{"Cache-Control", "max-age=300"}, {"Content-Type", "text/plain"}, {"X-Up-Header", "u3"}}, Body: full, ETag: `"v1"`, ModTime: c15ModTime,
+	c15Up.setSpec(specs[0], &respSpec{Status: 200, Headers: [][2]string{{"Cache-Control", "max-age=300"}, {"Content-Type", "text/plain"}, {"X-Up-Header", "u1"}, {"X-Resp-Added", "from-upstream"}}, Body: full, ETag: `"v1"`, ModTime: c15ModTime, Encoding: upEnc})
+	c15Up.setSpec(specs[1], &respSpec{Status: 200, Headers: [][2]string{{"Content-Type", "text/plain"}, {"X-Up-Header", "u2"}}, Body: full, ETag: `"v1"`, ModTime: c15ModTime, Encoding: upEnc})
+	c15Up.setSpec(specs[2], &respSpec{Status: 200, Headers: [][2]string{{"Cache-Control", "max-age=300"}, {"Content-Type", "text/plain"}, {"X-Up-Header", "u3"}}, Body: full, ETag: `"v1"`, ModTime: c15ModTime, Encoding: upEnc,
 		DropFirst: 1, DropFirstNames: []string{"Cache-Control"}})
 	defer func() {
 		c15Up.mu.Lock()
